@@ -43,4 +43,49 @@ def unit_RxOrder():
     G.FACTS["RxOrder"] = {"onData": tags}
 
 
-UNITS = {"RxOrder": unit_RxOrder}
+def unit_HsmsGuards():
+    """Gen.HsmsGuards:
+      * selectGuard : the condition under which `HsmsProtocol._on_state_connect` starts the Select thread (source text of the `if` test);
+        E37: the active entity sends Select.req on EVERY connection, so the condition has to be `self._settings.is_active` and nothing else.
+      * sockOpts : every `setsockopt` call in common/tcp_connection.py, tcp_client_connection.py, tcp_server_connection.py as
+        (file, receiver expression, level, option), in source order.  An option that changes what `close()` does to bytes `send()` has
+        accepted (SO_LINGER) would make "send_data returned True" mean less than the property says.
+    """
+    tree = G.parse("hsms/protocol.py")
+    cls = G.find_class(tree, "HsmsProtocol")
+    fn = next((i for i in cls.body if isinstance(i, ast.FunctionDef) and i.name == "_on_state_connect"), None)
+    if fn is None:
+        raise G.P.Untranslatable("HsmsProtocol._on_state_connect not found")
+    guards = []
+    for st in fn.body:
+        if isinstance(st, ast.If):
+            starts_thread = any(isinstance(n, ast.Call) and G.P.dotted(n.func) == "threading.Thread" for n in ast.walk(st))
+            if starts_thread:
+                guards.append(ast.unparse(st.test))
+    if len(guards) != 1:
+        raise G.P.Untranslatable(f"_on_state_connect: expected exactly one `if` that starts the Select thread, found {len(guards)}")
+    opts = []
+    for rel in ("common/tcp_connection.py", "common/tcp_client_connection.py", "common/tcp_server_connection.py"):
+        for n in ast.walk(G.parse(rel)):
+            if isinstance(n, ast.Call) and isinstance(n.func, ast.Attribute) and n.func.attr == "setsockopt":
+                if len(n.args) < 2:
+                    raise G.P.Untranslatable(f"{rel}: setsockopt with {len(n.args)} arguments")
+                opts.append((n.lineno, rel.split("/")[-1], ast.unparse(n.func.value), ast.unparse(n.args[0]), ast.unparse(n.args[1])))
+    opts = [o[1:] for o in sorted(opts, key=lambda o: (o[1], o[0]))]
+
+    def q(x):
+        return '"' + x.replace("\\", "\\\\").replace('"', '\\"') + '"'
+    out = [G.HEADER.format(src="secsgem/hsms/protocol.py (_on_state_connect), secsgem/common/tcp_*connection.py (setsockopt calls)"),
+           "namespace SecsModel.Gen.HsmsGuards
+",
+           "/-- source text of the condition under which `_on_state_connect` starts the Select thread -/",
+           f"def selectGuard : String := {q(guards[0])}\n",
+           "/-- every `setsockopt` call of the TCP connection classes: (file, receiver, level, option) -/",
+           "def sockOpts : List (String × String × String × String) := ["
+           + ", ".join("(" + ", ".join(q(x) for x in o) + ")" for o in opts) + "]\n",
+           "end SecsModel.Gen.HsmsGuards\n"]
+    G.write("HsmsGuards", "\n".join(out))
+    G.FACTS["HsmsGuards"] = {"selectGuard": guards[0], "sockOpts": opts}
+
+
+UNITS = {"RxOrder": unit_RxOrder, "HsmsGuards": unit_HsmsGuards}
